@@ -346,7 +346,7 @@ fn c06_differential(case: &Case, first: &Verdict, commits: &[crate::seq::CommitR
 
 pub fn exec_seq(case: &Case) -> Verdict {
     let (mut v, commits) = exec_seq_full(case);
-    if case.property == "C06" && v.violation.is_none() && v.aborted.is_none() && v.harness_error.is_none() {
+    if case.property == "C06" && v.violation.is_none() && v.aborted.is_none() && v.harness_error.is_none() && v.stats.probes.get("strict_commit_refused_on_damaged_page").is_none() {
         if let Some(x) = c06_differential(case, &v, &commits) {
             v.violation = Some(x);
         }
